@@ -341,6 +341,18 @@ struct Dumper {
         child("body", CS2->getHandlerBlock());
       } else if (auto *LE = dyn_cast<LambdaExpr>(S)) {
         genericChildren = false;
+        if (const CXXMethodDecl *CO = LE->getCallOperator()) {
+          J.attributeArray("params", [&] {
+            for (const ParmVarDecl *P : CO->parameters()) {
+              J.object([&] {
+                J.attribute("name", P->getNameAsString());
+                J.attribute("decl", declId(P));
+                J.attribute("type", ty(P->getType()));
+                J.attribute("ctype", cty(P->getType()));
+              });
+            }
+          });
+        }
         child("body", LE->getBody());
       } else if (auto *IL2 = dyn_cast<InitListExpr>(S)) {
         genericChildren = false;
